@@ -518,9 +518,15 @@ impl Machine {
 
     pub fn iter(&mut self, k: &str, h: u64) -> Value {
         assert!(!self.iters.contains_key(&h), "HARNESS: iterator id in use");
-        let it = if k == "w" { Iter::W(self.tab().iter_mut(self.w())) } else { Iter::R(self.tab().iter(self.w())) };
-        self.iters.insert(h, it);
-        json!({"ev":"iter","k":k,"h":h,"b":self.probe()})
+        let (tab, w) = (self.tab(), self.w());
+        let it = catch_unwind(AssertUnwindSafe(|| if k == "w" { Iter::W(tab.iter_mut(w)) } else { Iter::R(tab.iter(w)) }));
+        match it {
+            Ok(it) => {
+                self.iters.insert(h, it);
+                json!({"ev":"iter","k":k,"h":h,"out":"ok","b":self.probe()})
+            }
+            Err(p) => json!({"ev":"iter","k":k,"h":h,"out":panic_kind(p),"b":self.probe()}),
+        }
     }
 
     /// `next()`; a yielded item is kept alive as guard `g`.  An iterator whose
